@@ -99,6 +99,19 @@ func hx(b []byte) string {
 	if len(b) == 0 {
 		return "-"
 	}
+	if len(b) >= 64 {
+		// a long run of one byte value is written as r<byte>:<count> (the drivers expand it)
+		same := true
+		for _, x := range b {
+			if x != b[0] {
+				same = false
+				break
+			}
+		}
+		if same {
+			return fmt.Sprintf("r%02x:%d", b[0], len(b))
+		}
+	}
 	return hex.EncodeToString(b)
 }
 
